@@ -181,6 +181,10 @@ fn check_history(ctx: &mut Ctx, shared: &mut Shared, headers: &[String], workloa
     let mut with_queries = program.clone();
     let mut skip_end_to_end = false;
     for (qi, q) in shared.queries.iter().enumerate() {
+        // every (history, query) lookup is one evaluation (the history itself was counted by begin)
+        if qi > 0 {
+            ctx.evaluations += 1;
+        }
         with_queries.add_instruction(q.real.clone());
         let (look, kind) = match &q.model {
             MInstr::Gate(g) => (match_gate(&mset, g), "gate"),
